@@ -107,6 +107,69 @@ theorem sort_greedy_min_pos (ord : Ord) (hord : ord.OK) (g : Graph) (hwf : WF g)
     headPos e0 ≤ headPos e1 :=
   allFrom_split _ (sortGraph_topo_greedy ord hord g hwf hnf out h).2 hs hk e0 he0 hd hfirst e1 he1 hnot hready
 
+theorem exists_first {α : Type} (P : α → Prop) [DecidablePred P] (l : List α) (h : ∃ x ∈ l, P x) :
+    ∃ pre d post, l = pre ++ d :: post ∧ P d ∧ ∀ x ∈ pre, ¬ P x := by
+  induction l with
+  | nil => obtain ⟨x, hx, _⟩ := h; cases hx
+  | cons a r ih =>
+    by_cases ha : P a
+    · exact ⟨[], a, r, rfl, ha, by intro x hx; cases hx⟩
+    · obtain ⟨x, hx, hpx⟩ := h
+      have : ∃ x ∈ r, P x := by
+        rcases List.mem_cons.mp hx with rfl | hx
+        · exact absurd hpx ha
+        · exact ⟨x, hx, hpx⟩
+      obtain ⟨pre, d, post, hl, hd, hpre⟩ := ih this
+      refine ⟨a :: pre, d, post, by rw [hl]; rfl, hd, ?_⟩
+      intro y hy
+      rcases List.mem_cons.mp hy with rfl | hy
+      · exact ha
+      · exact hpre y hy
+
+/-- **cycle_without_type_is_error**: if some non-empty set `S` of entries, none of which declares a
+    type, is closed under "depends on a member of `S`" (i.e. the graph has a dependency cycle through
+    declarations that are not types), the sort reports a declaration loop, for every map order. -/
+theorem cycle_without_type_is_error (ord : Ord) (hord : ord.OK) (g : Graph) (hwf : WF g) (hnf : NoFwd g)
+    (S : List Entry) (hne : S ≠ [])
+    (hS : ∀ e ∈ S, e ∈ removeUnresolvable g ∧ isTypeEntry e = false ∧ ∃ e' ∈ S, e'.name ∈ e.edges) :
+    sortGraph ord g = none := by
+  cases hres : sortGraph ord g with
+  | none => rfl
+  | some out =>
+    exfalso
+    have hwf0 := hwf.removeUnresolvable
+    have hperm := sort_perm_graph ord hord g out hwf.names_nodup hnf hres
+    let P : Decl → Prop := fun d => ∃ e ∈ S, d ∈ e.decls
+    have hdec : DecidablePred P := fun d => by
+      unfold P
+      exact List.decidableBEx (fun e => d ∈ e.decls) S
+    -- some declaration of S is in the result
+    have hex : ∃ x ∈ out, P x := by
+      cases S with
+      | nil => exact absurd rfl hne
+      | cons e r =>
+        have he := (hS e List.mem_cons_self).1
+        cases hd : e.decls with
+        | nil => exact absurd hd (hwf0.nonempty e he)
+        | cons d rd =>
+          have hde : d ∈ e.decls := by rw [hd]; exact List.mem_cons_self
+          have hda : d ∈ allDecls g := by
+            rw [← allDecls_removeUnresolvable]; exact mem_allDecls.mpr ⟨e, he, hde⟩
+          have := (List.mem_filter.mp (hperm.mem_iff.mpr hda)).1
+          exact ⟨d, this, e, List.mem_cons_self, hde⟩
+    obtain ⟨pre, d, post, hout, ⟨e, heS, hde⟩, hpre⟩ := @exists_first _ P hdec out hex
+    obtain ⟨he0, hnt, e', he'S, hedge⟩ := hS e heS
+    have hk : d.kind ≠ Kind.typeFwd :=
+      hnf d (by rw [← allDecls_removeUnresolvable]; exact mem_allDecls.mpr ⟨e, he0, hde⟩)
+    rcases sort_topological ord hord g hwf hnf out pre post d hres hout hk e he0 hde e'.name hedge with hall | ⟨ht, _⟩
+    · have he'0 := (hS e' he'S).1
+      cases hd' : e'.decls with
+      | nil => exact hwf0.nonempty e' he'0 hd'
+      | cons d' rd' =>
+        have hd'e : d' ∈ e'.decls := by rw [hd']; exact List.mem_cons_self
+        exact hpre d' (hall e' he'0 rfl d' hd'e) ⟨e', he'S, hd'e⟩
+    · rw [hnt] at ht; cases ht
+
 /-- the declarations the scope walk produces are in creation order with ascending positions
     and none is a forward declaration: the hypotheses of the theorems above always hold -/
 theorem load_good (gensym pos : Nat) (ts : List DepScope.Top) :
